@@ -55,11 +55,23 @@ def gtf_text(k, n):
     return "\n".join(out) + "\n"
 
 
+def gtf_cds_text(k, n):
+    """a GTF without a single exon line: nothing to infer from, the intermediate file stays empty"""
+    out = []
+    for g in range(n):
+        gid = "C%d_%d" % (k, g)
+        out.append('chr3\tsrc\tCDS\t%d\t%d\t.\t+\t0\tgene_id "%s"; transcript_id "%s.t0";' % (300 * g + 1, 300 * g + 90, gid, gid))
+        out.append('chr3\tsrc\tstart_codon\t%d\t%d\t.\t+\t0\tgene_id "%s"; transcript_id "%s.t0";' % (300 * g + 1, 300 * g + 3, gid, gid))
+    return "\n".join(out) + "\n"
+
+
 def proc(fmt, k, n, from_string=False):
     return {"fmt": fmt, "k": k, "n": n, "from_string": from_string}
 
 
 def text_of(p):
+    if p["fmt"] == "gtf_cds":
+        return gtf_cds_text(p["k"], p["n"])
     return gff_text(p["k"], p["n"]) if p["fmt"] == "gff3" else gtf_text(p["k"], p["n"])
 
 
@@ -91,6 +103,7 @@ def gen_cases(rng, tier):
         [proc("gff3", 0, 2), proc("gtf", 1, 2)],
         [proc("gtf", 0, 2), proc("gtf", 0, 2)],
         [proc("gff3", 0, 1, True), proc("gtf", 1, 1)],
+        [proc("gtf_cds", 0, 1), proc("gtf", 1, 1)],
     ]
     for ps in pairs:
         for sched in interleavings([nsync(p) for p in ps]):
@@ -102,7 +115,7 @@ def gen_cases(rng, tier):
         for sched in rng.sample(allsch, 6 if tier == "quick" else 60):
             cases.append({"k": "run", "procs": ps, "schedule": sched, "offsets": None})
     for n in ([4, 8, 16, 24] if tier == "quick" else [4, 8, 12, 16, 17, 24, 24, 32]):
-        ps = [proc(rng.choice(["gff3", "gtf"]), rng.randrange(3), rng.choice([1, 2, 3]), rng.random() < 0.15) for _ in range(n)]
+        ps = [proc(rng.choice(["gff3", "gtf", "gtf_cds"]), rng.randrange(3), rng.choice([1, 2, 3]), rng.random() < 0.15) for _ in range(n)]
         cases.append({"k": "run", "procs": ps, "schedule": None, "offsets": None})
         cases.append({"k": "run", "procs": ps, "schedule": None, "offsets": [rng.choice([0, 0, 1, 3, 10]) for _ in range(n)]})
     for r in ([2, 5, 12] if tier == "quick" else [2, 5, 12, 24, 40]):
